@@ -81,6 +81,77 @@ def validateCall (env : Env) (orc : Nat → Val → Raw) (fvs : List (Field × V
   | some o => o
   | none => .instance          -- returns None: no exception
 
+/-! ## In which frame are forward references resolved?
+
+`new_post_init` asks `_get_context_of_caller(instance, skip)` for the names of *the frame that requested the instance* (called
+the constructor / copy_with / deep_copy_with); `validate_types` then works with `{**that frame, **module globals, own class}`.
+The helper walks up the stack while a frame is *internal* - its code object was handed in (`copy_with`, `deep_copy_with`), it
+belongs to the `dataclasses` module (`replace`), or it works on the instance itself (the generated `__init__`, the
+`__post_init__` wrappers and user methods of the class hierarchy).  Start depth, the tests of the loop and the code objects
+are generated facts; the frames `dataclasses` puts in between are measured live by the translator. -/
+
+structure Frame where
+  name : String
+  code : String := ""              -- which of the library's own functions the code object belongs to ("" = none of them)
+  inDataclasses : Bool := false    -- f_globals['__name__'] == 'dataclasses'
+  holdsInstance : Bool := false    -- some local of the frame is the instance under construction
+deriving Repr
+
+def Frame.internal (f : Frame) : Bool :=
+  (callerSkipTests.contains "code_in_skip" && callerSkipCodes.contains f.code) ||
+  (callerSkipTests.contains "module_is_dataclasses" && f.inDataclasses) ||
+  (callerSkipTests.contains "holds_instance" && f.holdsInstance)
+
+/-- `while frame.f_back is not None and internal(frame): frame = frame.f_back`, as an index into the stack -/
+def walk : List Frame → Nat → Nat
+  | f :: g :: rest, i => if f.internal then walk (g :: rest) (i + 1) else i
+  | [f], i => if f.internal && !callerWalkStopsAtLastFrame then i + 1 else i     -- `i + 1`: falls off the stack (AttributeError)
+  | [], i => i
+
+/-- the frames the library itself puts between `__init__` and the caller, per path -/
+def pathFrames : Path → List Frame
+  | .constructor => []
+  | .copyWith => (replaceFrames.map fun n => { name := n, inDataclasses := true }) ++ [{ name := "copy_with", code := "copy_with" }]
+  | .deepCopyWith => [{ name := "deep_copy_with", code := "deep_copy_with" }]
+
+/-- the stack above `_get_context_of_caller` (innermost first): the wrapper that called it, further frames working on the instance
+    (`chain`: outer wrappers of a decorated subclass, user `__post_init__` methods calling super, the generated `__init__`), the
+    path's own frames, the caller, whatever called the caller -/
+def stackOf (p : Path) (chain : List Frame) (caller : Frame) (outer : List Frame) : List Frame :=
+  [{ name := "new_post_init", code := "new_post_init", holdsInstance := true }] ++ chain ++ pathFrames p ++ [caller] ++ outer
+
+def callerIndex (p : Path) (chain : List Frame) : Nat := 1 + chain.length + (pathFrames p).length
+
+def selectFrame (stack : List Frame) : Nat :=
+  let i := callerStartDepth - 1          -- depth 0 is the helper itself
+  walk (stack.drop i) i
+
+/-- does the validation triggered by path `p` see the names of the calling function? -/
+def seesCaller (p : Path) (chain : List Frame) (caller : Frame) (outer : List Frame) : Bool :=
+  selectFrame (stackOf p chain caller outer) == callerIndex p chain
+/-- … and a direct call `obj.validate_types()`: `get_context(depth=2)` -/
+def userValidateSeesCaller : Bool := validateContextDepth == 2 && validateContextOnlyWhenNone
+
+/-- the context `validate_types` builds: the dict display merges left to right (later entries win) -/
+def _root_.PedVerif.Checker.Env.withCaller (env : Env) (locals : List (NameId × ClsId)) (sees : Bool) : Env :=
+  if !sees then env
+  else if contextMergeOrder == ["caller", "globals", "own"] then
+    { env with ctx := fun n => match env.ctx n with | some c => some c | none => locals.lookup n }
+  else
+    { env with ctx := fun n => match locals.lookup n with | some c => some c | none => env.ctx n }
+
+/-- the construction paths / the user call, executed by a function `caller` whose frame binds `locals`
+    (`env.ctx` = module globals + the class itself); `chains`: one entry per validating wrapper that runs (a decorated subclass
+    that inherits the wrapped `__post_init__` of its decorated base runs two) -/
+def constructIn (env : Env) (locals : List (NameId × ClsId)) (chains : List (List Frame)) (caller : Frame) (outer : List Frame)
+    (orc : Nat → Val → Raw) (typeSafe : Bool) (up : UserPost) (p : Path) (fvs : List (Field × Val)) : List Ev × Outcome :=
+  construct (env.withCaller locals (chains.all fun ch => seesCaller p ch caller outer)) orc typeSafe up p fvs
+def validateCallIn (env : Env) (locals : List (NameId × ClsId)) (orc : Nat → Val → Raw) (fvs : List (Field × Val)) : Outcome :=
+  validateCall (env.withCaller locals userValidateSeesCaller) orc fvs
+/-- what the annotations mean at the call site: names of the module first, then those of the calling function -/
+def _root_.PedVerif.Checker.Env.atCallSite (env : Env) (locals : List (NameId × ClsId)) : Env :=
+  { env with ctx := fun n => match env.ctx n with | some c => some c | none => locals.lookup n }
+
 /-- spec: every field value conforms to its annotation -/
 def allConform (env : Env) (fvs : List (Field × Val)) : Bool := fvs.all (fun fv => conforms env fv.1.ann fv.2)
 
